@@ -8,6 +8,7 @@ mod ggen;
 mod model;
 mod pipeline;
 mod probe;
+mod rgen;
 mod runner;
 mod store;
 mod tape;
